@@ -354,6 +354,20 @@ func checkC04(c *Ctx) {
 		emit("S3", e)
 	}
 	flush()
+	// one global name bound to different values in successive bundles of one process (globals belong
+	// to a bundle, not to the process): each bundle in its own compilation and its own generation.
+	// (one case: the whole sequence runs in one worker process)
+	sameWorker := c.Mine()
+	for round := 0; sameWorker && round < 2; round++ {
+		for _, gv := range []data.Value{data.Int(1), data.String("two"), data.Float(3.5), data.Bool(true), data.String("x y"), data.Int(1)} {
+			g := glob("G.same", gv)
+			for _, e := range []*E{g, bin("+", g, lit("'!'", data.String("!"))), tern(bin("==", g, lit("1", data.Int(1))), lit("'one'", data.String("one")), g)} {
+				if inCommonExpr(env, e) {
+					runC04Exprs(c, []exprItem{{e, e.src(0)}})
+				}
+			}
+		}
+	}
 
 	// ---- Part 1b: data-driven operands (S7): every form over template parameters x every binding in the common subset ----
 	for _, f := range s7Forms() {
